@@ -6,7 +6,7 @@
    delete and raises AttributeError.                                         *)
 From Coq Require Import NArith ZArith String Bool Arith List Lia.
 From V Require Import Model.Heap Model.HeapOps Model.HeapApi Model.HeapRun Spec.HeapSpec.
-From V Require Import Proofs.HeapFacts Proofs.HeapStoreFacts Proofs.HeapExec.
+From V Require Import Proofs.HeapFacts Proofs.HeapInterp Proofs.HeapApiFacts Proofs.HeapStoreFacts Proofs.HeapExec.
 Import ListNotations.
 Open Scope nat_scope.
 
@@ -118,9 +118,19 @@ Ltac scrut t :=
   | _ => t
   end.
 
+(* the scrutinee in evaluation position of the run described by H; matches inside arguments
+   are left alone (Ltac matches `match` patterns modulo delta: applications are excluded explicitly) *)
+Ltac head_scrut t :=
+  lazymatch t with
+  | ?f ?a => t
+  | match ?x with _ => _ end => head_scrut x
+  | _ => t
+  end.
+
 Ltac brk H :=
-  match type of H with
-  | context [match ?x with _ => _ end] => let y := scrut x in destruct y eqn:?
+  lazymatch type of H with
+  | ?f ?a = _ => fail
+  | match ?x with _ => _ end = _ => let y := head_scrut x in destruct y eqn:?
   end.
 
 Ltac inv_eq :=
@@ -145,10 +155,14 @@ Create HintDb priv.
 Ltac know h1 := lazymatch goal with | _ : private_attrs h1 |- _ => fail | _ => idtac end.
 Ltac fwd1 :=
   match goal with
-  | E : _ = (?h1, _) |- _ => is_var h1; know h1; assert (private_attrs h1) by (solve [eauto 3 with priv])
-  | E : _ = Some ?h1 |- _ => is_var h1; know h1; assert (private_attrs h1) by (solve [eauto 3 with priv])
+  | P : private_attrs ?h, E : ?t = (?h1, _) |- _ =>
+      is_var h1; know h1; lazymatch t with context [h] => idtac end;
+      assert (private_attrs h1) by (solve [eauto 2 with priv])
+  | P : private_attrs ?h, E : ?t = Some ?h1 |- _ =>
+      is_var h1; know h1; lazymatch t with context [h] => idtac end;
+      assert (private_attrs h1) by (solve [eauto 2 with priv])
   end.
-Ltac fin := repeat fwd1; solve [eauto 3 with priv].
+Ltac fin := repeat fwd1; first [assumption | solve [eauto 2 with priv]].
 
 (* ------------------------------------------------------------------ *)
 (* Heap.v: copies                                                       *)
@@ -508,7 +522,7 @@ Proof.
   - inversion H; subst; auto.
   - match type of H with (let (_, _) := ?f m h in _) = _ => destruct (f m h) as [h1 m'] eqn:Eg end.
     destruct (alloc h1 (NDict m')) as [h2 l] eqn:Ea. inversion H; subst.
-    eapply priv_alloc; [| simpl; auto | eauto].
+    eapply priv_alloc'; [eauto | | simpl; auto].
     clear Ea H. revert h h1 m' P Eg.
     induction m as [|[k t] r IHm]; intros h h1 m' P Eg.
     + inversion Eg; subst; auto.
@@ -517,7 +531,7 @@ Proof.
       inversion Eg; subst. eapply IHm; [|eauto]. eapply IH; eauto.
   - match type of H with (let (_, _) := ?f xs h in _) = _ => destruct (f xs h) as [h1 xs'] eqn:Eg end.
     destruct (alloc h1 (NList xs')) as [h2 l] eqn:Ea. inversion H; subst.
-    eapply priv_alloc; [| simpl; auto | eauto].
+    eapply priv_alloc'; [eauto | | simpl; auto].
     clear Ea H. revert h h1 xs' P Eg.
     induction xs as [|t r IHm]; intros h h1 xs' P Eg.
     + inversion Eg; subst; auto.
@@ -590,7 +604,7 @@ Section ExecPriv.
   Lemma exec_kept_d : forall o e h h' r,
     private_attrs h -> public_op_d o = true -> exec vt W o e h = (h', r) -> kept h h'.
   Proof.
-    intros o e h h' r P Hp H. destruct o; try (eapply exec_kept; eauto; fail).
+    intros o e h h' r P Hp H. destruct o; try (eapply exec_kept; [exact Hvt | exact Hp | exact H]).
     simpl in Hp. apply negb_true_iff in Hp. unfold exec in H.
     rewrite (delattr_public _ _ _ P Hp) in H. inversion H; subst. apply kept_refl.
   Qed.
